@@ -404,10 +404,30 @@ pub fn check_history<F: Fl>(h: &[COp], seed: u64, ctor: u8, dot_attr: bool) -> R
         Ok(())
     });
     match r {
-        Ok(Ok(())) => Ok(w.state()),
-        Ok(Err((c, d))) => Err((format!("view/{}", c), format!("after [{}] (hash seed {}): {}", show_hist(h), seed, d))),
-        Err(f) => Err((format!("view/{}", f.kind()), format!("after [{}]: {}", show_hist(h), f.msg()))),
+        Ok(Ok(())) => {}
+        Ok(Err((c, d))) => return Err((format!("view/{}", c), format!("after [{}] (hash seed {}): {}", show_hist(h), seed, d))),
+        Err(f) => return Err((format!("view/{}", f.kind()), format!("after [{}]: {}", show_hist(h), f.msg()))),
     }
+    // the same history once more on a fresh container, this time with every
+    // view and the DOT export called after EVERY step: a view that keeps
+    // something from one call to the next (a cached list, a memoised export)
+    // must still follow the mutations in between
+    if h.len() >= 2 {
+        let mut w2 = CWorld::<F>::new(seed, ctor);
+        for (i, op) in h.iter().enumerate() {
+            let r = guarded(|| -> Result<(), Bad> {
+                w2.apply(op)?;
+                w2.check_views()?;
+                w2.check_dot_plain()
+            });
+            match r {
+                Ok(Ok(())) => {}
+                Ok(Err((c, d))) => return Err((format!("view-interleaved/{}", c), format!("[{}] with every view called after every step, after step {} (hash seed {}): {}", show_hist(h), i, seed, d))),
+                Err(f) => return Err((format!("view-interleaved/{}", f.kind()), format!("[{}] with every view called after every step, step {}: {}", show_hist(h), i, f.msg()))),
+            }
+        }
+    }
+    Ok(w.state())
 }
 
 /// Containers with many keys (hash-map growth, thresholds): chains of k nodes,
